@@ -185,7 +185,8 @@ func c15Body(s *simkit.Sim, rc *simkit.RunCtx) {
 		if claim.Empty() {
 			return peer // anonymous
 		}
-		peer.Certificate = &x509.Certificate{DNSNames: []string{certHost}}
+		// a host presents the same certificate on every connection: the same DER bytes (a parsed certificate always has them)
+		peer.Certificate = &x509.Certificate{DNSNames: []string{certHost}, Raw: []byte("sim-der-of-the-certificate-of:" + certHost)}
 		// one authenticator per node, as in the real connection manager (it lives as long as the node)
 		auth := auths[owner.Name]
 		if auth == nil {
@@ -211,6 +212,10 @@ func c15Body(s *simkit.Sim, rc *simkit.RunCtx) {
 	var bmu sync.Mutex
 	var byzGot [][]byte
 	byzTxs := map[hash.SHA256Hash][]byte{} // transactions of its own that the scripted peer hands out when asked
+	// how it answers a list query: in one message, or in two of which the second repeats the transactions - by then present
+	// without payload - with bytes that do not hash to the declared payload hash
+	byzAnswersTwice := s.D.Decide("byz-list-answer-twice-with-wrong-payload", 2) == 1
+	var declaredHashes []hash.SHA256Hash
 	byz.OnMessage = func(from *seams.Endpoint, conn *seams.Conn, envelope interface{}) {
 		if e, ok := envelope.(*v2.Envelope); ok {
 			if tp := e.GetTransactionPayload(); tp != nil && len(tp.Data) > 0 {
@@ -227,8 +232,17 @@ func c15Body(s *simkit.Sim, rc *simkit.RunCtx) {
 					}
 				}
 				bmu.Unlock()
-				if len(txs) > 0 {
+				if len(txs) > 0 && !byzAnswersTwice {
 					_ = w.P2P.Inject("byz", from.Name, &v2.Envelope{Message: &v2.Envelope_TransactionList{TransactionList: &v2.TransactionList{ConversationID: q.ConversationID, Transactions: txs, TotalMessages: 1, MessageNumber: 1}}})
+				}
+				if len(txs) > 0 && byzAnswersTwice {
+					_ = w.P2P.Inject("byz", from.Name, &v2.Envelope{Message: &v2.Envelope_TransactionList{TransactionList: &v2.TransactionList{ConversationID: q.ConversationID, Transactions: txs, TotalMessages: 2, MessageNumber: 1}}})
+					var again []*v2.Transaction
+					for _, t := range txs {
+						again = append(again, &v2.Transaction{Data: t.Data, Payload: append([]byte("NOT-THE-PAYLOAD-OF:"), t.Data[:32]...)})
+					}
+					_ = w.P2P.Inject("byz", from.Name, &v2.Envelope{Message: &v2.Envelope_TransactionList{TransactionList: &v2.TransactionList{ConversationID: q.ConversationID, Transactions: again, TotalMessages: 2, MessageNumber: 2}}})
+					s.Probes.Inc("list-answer-repeated-with-mismatching-payload")
 				}
 			}
 		}
@@ -455,6 +469,7 @@ func c15Body(s *simkit.Sim, rc *simkit.RunCtx) {
 				if signed, serr := dag.NewTransactionSigner(world.MemSigner{Key: bkey}, "", bkey.Public()).Sign(ctx, utx, time.Now()); serr == nil {
 					bmu.Lock()
 					byzTxs[signed.Ref()] = signed.Data()
+					declaredHashes = append(declaredHashes, tx.PayloadHash())
 					bmu.Unlock()
 					s.Probes.Inc("public-transaction-with-private-payload-hash-offered")
 					for _, target := range names {
@@ -535,6 +550,16 @@ func c15Body(s *simkit.Sim, rc *simkit.RunCtx) {
 		for _, wp := range wrongPayloads {
 			if present, _ := st.IsPayloadPresent(ctx, hash.SHA256Sum(wp)); present {
 				s.Fail("C15.store", "mismatching-payload-stored", "node %s stored a payload that does not hash to the payload hash of any transaction in its DAG", name)
+				return
+			}
+		}
+		// whatever is stored as a payload hashes to the key it is stored under
+		bmu.Lock()
+		hs := append([]hash.SHA256Hash{}, declaredHashes...)
+		bmu.Unlock()
+		for _, h := range hs {
+			if data, err := st.ReadPayload(ctx, h); err == nil && data != nil && !hash.SHA256Sum(data).Equals(h) {
+				s.Fail("C15.store", "stored-bytes-do-not-hash-to-the-payload-hash", "node %s holds %d bytes as the payload with hash %s, they hash to %s", name, len(data), h, hash.SHA256Sum(data))
 				return
 			}
 		}
